@@ -319,7 +319,7 @@ func hostileHref(r *RNG, n int, u *nurl.URL) string {
 	}
 }
 
-const nHostileFams = 26
+const nHostileFams = 28
 
 func famHostile(fam, n int, u *nurl.URL) string {
 	host := u.Host
@@ -372,6 +372,12 @@ func famHostile(fam, n int, u *nurl.URL) string {
 	case 20:
 		return fmt.Sprintf("page%d.html", n)
 	// reserved characters percent-encoded in the path: decoding them names another resource
+	// the page number in a middle path component: every page lives in a folder of its own,
+	// so the links lie outside the folder of the page URL
+	case 26:
+		return fmt.Sprintf("/news/page/%d/index.html", n)
+	case 27:
+		return fmt.Sprintf("/archive/%d/list.html", n)
 	case 22:
 		return fmt.Sprintf("/tag/AC%%2FDC/page/%d", n)
 	case 23:
@@ -554,6 +560,29 @@ func genPager(r *RNG, hostile bool) *Pager {
 	return &Pager{HTML: sb.String(), PageURL: pu, Desc: "hostile"}
 }
 
+// genFolderPager: a pager whose links carry only a number, point outside the folder of the page URL and
+// sit in a container named like a pager: for prev/next the only evidence is the container, the URL
+// pattern and the page number next to the current one (scores close to the acceptance threshold).
+func genFolderPager(r *RNG) *Pager {
+	tmpl := []string{"/news/page/%d/index.html", "/archive/%d/list.html", "/blog/p/%d/", "/gallery/%d/view"}[r.Intn(4)]
+	N := 3 + r.Intn(6)
+	k := 1 + r.Intn(N)
+	pg := &Pager{N: N, K: k, PageURL: "http://example.com" + fmt.Sprintf(tmpl, k)}
+	var sb strings.Builder
+	sb.WriteString(`<html><head><title>T</title></head><body><p>` + fillerWords(r, 50+r.Intn(40)) + `</p>`)
+	sb.WriteString(`<div class="` + []string{"pagination", "pager", "paging", "page-nav", "pages"}[r.Intn(5)] + `">`)
+	for i := 1; i <= N; i++ {
+		if i == k {
+			fmt.Fprintf(&sb, "<span>%d</span> ", i)
+		} else {
+			fmt.Fprintf(&sb, `<a href="%s">%d</a> `, fmt.Sprintf(tmpl, i), i)
+		}
+	}
+	sb.WriteString(`</div><p>` + fillerWords(r, 30) + `</p></body></html>`)
+	pg.HTML = sb.String()
+	return pg
+}
+
 // genTiePager builds pagers of the two shapes in which the page-number
 // detector has several equally plausible readings (used by C11): (A) a gapped
 // run "1 .. k-1 k k+1" over a URL family with more than one numeric component,
@@ -563,7 +592,25 @@ func genTiePager(r *RNG) *Pager {
 	var sb strings.Builder
 	sb.WriteString(`<html><head><title>T</title></head><body><p>` + fillerWords(r, 50+r.Intn(40)) + `</p><div class="pg">`)
 	pu := ""
-	if r.Intn(2) == 0 {
+	if r.Intn(3) == 0 {
+		// shape C: two runs of consecutive numbers of the same length, the first with plain numbers in it
+		// (1 2 [3] ... [7] [8] [9]): which run is "the longest" must not depend on the order a map is ranged over
+		L := 3 + r.Intn(2)
+		start2 := L + 2 + r.Intn(4)
+		plain := 1 + r.Intn(2)
+		pu = fmt.Sprintf("http://example.com/story?page=%d", plain)
+		for n := 1; n <= L; n++ {
+			if n <= plain {
+				fmt.Fprintf(&sb, "%d ", n)
+			} else {
+				fmt.Fprintf(&sb, `<a href="/story?page=%d">%d</a> `, n, n)
+			}
+		}
+		sb.WriteString("... ")
+		for n := start2; n < start2+L; n++ {
+			fmt.Fprintf(&sb, `<a href="/story?page=%d">%d</a> `, n, n)
+		}
+	} else if r.Intn(2) == 0 {
 		// shape A
 		k := 3 + r.Intn(6)
 		id := 10 + r.Intn(90)
